@@ -2,6 +2,7 @@
 Proofs for `Properties/C12.lean`: the type-system descriptor codec model (`Model/TsXml.lean`).
 -/
 import CassisModel.Spec.TsXml
+import CassisModel.Proofs.TsXmlStrip
 import CassisModel.Proofs.Features
 import CassisModel.Proofs.Json
 
@@ -162,8 +163,8 @@ theorem nodup_filterMap_name (g : String → Option TDesc) (hg : ∀ n r, g n = 
       · exact List.mem_cons_self
       · exact List.mem_cons_of_mem _ (ih2 x hx)
 
-theorem normalize_nodup (d0 : Descriptor) : ((normalize d0).map (·.name)).Nodup := by
-  unfold normalize
+theorem groupByName_nodup (d0 : Descriptor) : ((groupByName d0).map (·.name)).Nodup := by
+  unfold groupByName
   simp only []
   refine (nodup_filterMap_name _ ?_ _ (nodup_eraseDups _ _ (Nat.le_refl _))).1
   intro n r hr
@@ -174,6 +175,10 @@ theorem normalize_nodup (d0 : Descriptor) : ((normalize d0).map (·.name)).Nodup
     have hm : t ∈ d0.filter (fun t => t.name == n) := List.mem_of_getLast? ht
     simpa using (List.mem_filter.mp hm).2
   · cases hr
+
+/-- the reader strips every text first and keys the declarations by the stripped name -/
+theorem normalize_nodup (d0 : Descriptor) : ((normalize d0).map (·.name)).Nodup :=
+  groupByName_nodup _
 
 theorem effective_nodup (d0 : Descriptor) : ((effective d0).map (·.name)).Nodup := by
   unfold effective
@@ -1247,7 +1252,12 @@ theorem load_example_aux :
       [{ name := "x.B", super := "x.A", feats := [{ name := "self", range := "x.A" }] },
        { name := "x.A", super := "uima.tcas.Annotation" },
        { name := "uima.tcas.DocumentAnnotation", super := "uima.tcas.Annotation",
-         feats := [{ name := "language", range := "uima.cas.String" }] }] := by decide +kernel
+         feats := [{ name := "language", range := "uima.cas.String" }] }] := by
+    -- `String.trimAscii` does not reduce in the kernel: the entries carry no padding (`stripT_of_noPad_nodescr`)
+    unfold effective normalize
+    rw [List.map_cons, List.map_cons, List.map_nil,
+      stripT_of_noPad_nodescr (by decide) rfl (by decide), stripT_of_noPad_nodescr (by decide) rfl (by decide)]
+    decide +kernel
   apply load_isSome_of Gen.consts _ [] ["uima.tcas.Annotation", "uima.tcas.DocumentAnnotation", "x.A", "x.B"]
   · rw [hd]; decide +kernel
   · rw [hd]; decide +kernel
